@@ -5,3 +5,4 @@ import JellyProofs.C10
 import JellyProofs.C13
 import JellyProofs.C04
 import JellyProofs.C06
+import JellyProofs.C18
